@@ -74,6 +74,10 @@ var handShapes = []string{
 	`{ me { pets { id } pets { weight } } }`,
 	`{ beings { ... on Human { name } } beings { ... on Human { phone } ... on Pet { weight } } }`,
 	`{ humans { name ... on Human { name phone } } }`,
+	// ... at the level of an ancestor (the fix after 360a3f6)
+	`{ me { pets { id } } me { pets { weight } } }`,
+	`{ me { pets { weight } } me { pets { id } } }`,
+	`{ me { friend { id name } } me { friend { phone } } }`,
 }
 
 func worldFor(seed int64, domain string) *gen.World {
